@@ -137,3 +137,18 @@ Theorem C10_source_expiry_ieee : forall (c : bcfg) (ctx now ttl inc : Z) (res : 
   (Rabs (IZR (res.2 - (now + T))) <= Rabs (IZR T) * J / 2 + Rabs (IZR T) / 1125899906842624)%R.
 Proof. exact source_expiry_ieee. Qed.
 Print Assumptions C10_source_expiry_ieee.
+
+(* ---- instants: ts and tsTime ---- *)
+From Coq Require Import String.
+From Cache Require Import TieAccessors.
+Open Scope string_scope.
+Open Scope Z_scope.
+
+(* ts(t) = t.UnixNano(); tsTime(ns) = time.Unix(ns / 1e9, ns % 1e9) with Go's truncating division — the pair denotes ns *)
+Theorem C10_source_instants : forall ns,
+  run_acc fn_ts [VPtr true "t"] [] = Some [VRec "t.UnixNano()" []] /\
+  run_acc fn_tsTime [VZ ns] [] =
+    Some [VRec "time.Unix" [("sec", VZ (Z.quot ns 1000000000)); ("nsec", VZ (Z.rem ns 1000000000))]] /\
+  Z.quot ns 1000000000 * 1000000000 + Z.rem ns 1000000000 = ns.
+Proof. intros ns. destruct (tie_ts ns) as [H1 H2]. split; [exact H1|split; [exact H2|exact (ts_round_trip ns)]]. Qed.
+Print Assumptions C10_source_instants.
